@@ -90,6 +90,23 @@ impl WrapConfig {
     }
 }
 
+/// The style of an inserted wrap symbol: inline-hint-style, on the background of the line unless
+/// it names one itself.
+fn inline_hint_style_on(config: &Config, line_style: &Style) -> Style {
+    let hint = config.inline_hint_style;
+    Style {
+        ansi_term_style: ansi_term::Style {
+            background: hint
+                .ansi_term_style
+                .background
+                .or(line_style.ansi_term_style.background),
+            ..hint.ansi_term_style
+        },
+        is_syntax_highlighted: false,
+        ..hint
+    }
+}
+
 fn remove_percent_suffix(arg: &str) -> &str {
     match &arg.strip_suffix('%') {
         Some(s) => s,
@@ -464,18 +481,7 @@ pub fn wrap_minusplus_block<'c: 'a, 'a>(
             &Some(config.wrap_config.inline_hint_syntect_style),
         );
 
-        // TODO: Why is the background color set to white when
-        // ansi_term_style.background is None?
-        let inline_hint_style = if config
-            .inline_hint_style
-            .ansi_term_style
-            .background
-            .is_some()
-        {
-            Some(config.inline_hint_style)
-        } else {
-            None
-        };
+        let inline_hint_style = Some(inline_hint_style_on(config, fill_style));
 
         let (start2, extended_to2) = wrap_if_too_long(
             config,
@@ -641,18 +647,7 @@ pub fn wrap_zero_block<'c: 'a, 'a>(
             &Some(config.wrap_config.inline_hint_syntect_style),
         );
 
-        // TODO: Why is the background color set to white when
-        // ansi_term_style.background is None?
-        let inline_hint_style = if config
-            .inline_hint_style
-            .ansi_term_style
-            .background
-            .is_some()
-        {
-            Some(config.inline_hint_style)
-        } else {
-            None
-        };
+        let inline_hint_style = Some(inline_hint_style_on(config, &config.zero_style));
         let diff_style = wrap_line(
             config,
             diff_style_sections.into_iter().flatten(),
